@@ -191,7 +191,17 @@ def float_bounds():
 
 def weight_vectors():
     w = st.one_of(st.sampled_from([0, 0, 1, 2, 5]), st.sampled_from([0.0, 0.25, 0.5, 1.5]), st.floats(0.001, 10))
-    return st.lists(w, min_size=1, max_size=6).filter(lambda ws: any(x > 0 for x in ws))
+    free = st.lists(w, min_size=1, max_size=6).filter(lambda ws: any(x > 0 for x in ws))
+    # the shape production weights have after normalisation: n equal (or proportional) fractions whose
+    # floating-point running sum need not land exactly on their total; optionally behind zero weights
+    equal = st.builds(
+        lambda zeros, n, base: [0.0] * zeros + [base / n] * n,
+        st.integers(0, 2),
+        st.integers(2, 16),
+        st.sampled_from([1.0, 1.0, 0.5, 2.0, 3.0, 0.3]),
+    )
+    prop = st.lists(st.integers(1, 9), min_size=2, max_size=12).map(lambda xs: [0.0] + [x / sum(xs) for x in xs])
+    return st.one_of(free, free, equal, prop)
 
 
 @st.composite
